@@ -300,5 +300,7 @@ def plan(tier, seed):
     tasks.append(("all_n", {"sets": 2 if tier == "quick" else 40, "ns": [0, 1, 9, 10, 11, 14], "with_tail": True}))
     tasks.append(("tails", {}))
     if tier != "quick":
-        tasks.append(("all_n", {"sets": 60, "ns": [15, 20, 21, 22, 37, 100, 250]}))
+        for n in (15, 20, 21, 22, 37, 100):    # around the default --max-items (20) and well beyond the elision threshold
+            tasks.append(("all_n", {"sets": 40, "ns": [n]}))
+        tasks.append(("all_n", {"sets": 4, "ns": [250]}))
     return tasks
